@@ -73,7 +73,7 @@ def run_cell(arg):
         nm = c.get("names", "sorted")
         PARAMS = ["b", "a"] if nm == "unsorted" else ["a", "b"]
         sc = c.get("scale", "unit")
-        b2 = {"unit": BOUNDS["b"], "tiny": [0.0, 2e-5], "huge": [-1e6, 3e6], "free": [-np.inf, np.inf]}[sc]
+        b2 = {"unit": BOUNDS["b"], "tiny": [0.0, 2e-5], "huge": [-1e6, 3e6], "free": [-np.inf, np.inf], "offset": [1000.0, 1000.5]}[sc]
         pos_bounds = [BOUNDS["a"], b2]            # bounds by *position* of the parameter
         tag_scale = sc
         items = list(zip(PARAMS, pos_bounds))
@@ -81,6 +81,10 @@ def run_cell(arg):
             items = items[::-1]
         PB = {k: list(v) for k, v in items}
         tag += "|" + nm + "|" + sc
+        if sc == "offset" and dt == "float32":
+            # domain: single precision resolves [1000, 1000.5] to 1.2e-4 of its width - the coordinates
+            # themselves are not representable to the accuracy the comparison needs
+            return out
         rng = np.random.default_rng(7)
         def col2(v):       # the second column, mapped affinely from the unit-scale support [0.5, 4.5] to the declared one
             if not np.isfinite(b2[0]):
@@ -156,7 +160,11 @@ def run_cell(arg):
             # points next to the clipping margin are "near": skipped
             ok = margin > (1e-3 if dt == "float32" else 1e-5)
             cond = 1.0 / np.maximum(margin, 1e-12)
-            tol = 256 * eps * (np.maximum(1.0, np.abs(lpn)) + cond)
+            # the coordinates carry a relative error eps: in units of the interval width that is eps * |x| / width
+            cs = 1.0
+            if np.isfinite(b2[0]):
+                cs = max(1.0, max(abs(b2[0]), abs(b2[1])) / (b2[1] - b2[0]))
+            tol = 256 * eps * (np.maximum(1.0, np.abs(lpn)) + cond) * cs
             bad = ok & np.isfinite(lpn) & ~(np.abs(lqn - lpn) <= tol)
             if np.any(bad) or not np.all(np.isfinite(lqn[ok])):
                 k = int(np.argmax(np.abs(lqn - lpn) * ok))
